@@ -9,6 +9,13 @@ A *fresh interpreter* then calls is_cached / cached_tasks / run_tasks on the dir
 The outcome class is compared with the Lean model's (`SAVE … kind=crash`), whose theorem
 `crash_safe_iff` says exactly which kill points are safe.
 
+SOFT kills (sig = 'int' | 'exit'): the child receives SIGINT (Python raises KeyboardInterrupt at the
+kill point, exactly what the first Ctrl-C does to a serial-runner process) or SystemExit is raised
+there; the exception unwinds through BaseCache.save's handler and the process then ends. The model
+of a soft kill is a *fault* (`SAVE … kind=fault`, theorem `failed_save_leaves_absent` of C12): the
+entry must be absent or load correctly at EVERY such point; a poisoned entry after a soft kill is a
+real violation, never a known finding (the F13a/F13b windows are for hard kills only).
+
 * poisoned inside a window the model proves poisoned  -> violation with known_match (KNOWN-FINDING)
 * poisoned where the model proves safe, a load returning a wrong value, an entry that appears before
   the save touched anything                            -> real violation (exit 1)
@@ -77,6 +84,15 @@ def kill_case(case, root):
                 fd = os.open(side, os.O_WRONLY | os.O_CREAT | os.O_TRUNC)
                 os.write(fd, json.dumps(rec).encode())
                 os.close(fd)
+                if case.get('sig') == 'int':
+                    # what Ctrl-C does: SIGINT -> KeyboardInterrupt raised in the main thread, here
+                    signal.signal(signal.SIGINT, signal.default_int_handler)
+                    os.kill(os.getpid(), signal.SIGINT)
+                    for _ in range(1000):
+                        time.sleep(0.001)      # the handler runs at the next bytecode boundary
+                    raise KeyboardInterrupt('SIGINT was not delivered')
+                if case.get('sig') == 'exit':
+                    raise SystemExit(7)
                 os.kill(os.getpid(), sig)
                 time.sleep(5)
                 os._exit(3)
@@ -88,15 +104,23 @@ def kill_case(case, root):
                 tracer = W.LineTracer(st, target=inj[1], action=lambda info: die(st, dict(line_info=info)))
                 sys.settrace(tracer)
             lab = labtech.Lab(storage=st, runner_backend='serial')
-            lab.run_tasks([Type(idx)], bust_cache=(mode == 'over'), disable_progress=True, disable_top=True)
+            try:
+                lab.run_tasks([Type(idx)], bust_cache=(mode == 'over'), disable_progress=True, disable_top=True)
+            except BaseException:
+                if case.get('sig') in ('int', 'exit'):
+                    sys.settrace(None)
+                    os._exit(130)      # the interrupted process ends after unwinding
+                raise
             sys.settrace(None)
-            fd = os.open(side, os.O_WRONLY | os.O_CREAT | os.O_TRUNC)
-            os.write(fd, json.dumps(dict(completed=True)).encode())
-            os.close(fd)
+            if not os.path.exists(side):
+                fd = os.open(side, os.O_WRONLY | os.O_CREAT | os.O_TRUNC)
+                os.write(fd, json.dumps(dict(completed=True)).encode())
+                os.close(fd)
         finally:
             os._exit(0)
     _, status = os.waitpid(pid, 0)
-    killed = os.WIFSIGNALED(status) and os.WTERMSIG(status) in (signal.SIGKILL, signal.SIGTERM)
+    killed = (os.WIFSIGNALED(status) and os.WTERMSIG(status) in (signal.SIGKILL, signal.SIGTERM)) or \
+        (case.get('sig') in ('int', 'exit') and os.path.exists(side))
     sc = json.load(open(side)) if os.path.exists(side) else {}
     T.EXEC_LOG = None
     return dict(case=case, dir=d, old_start=old_start, killed=killed, sidecar=sc)
@@ -189,6 +213,16 @@ def model_of(rec, dry):
     n1, m1 = dry['n1'], dry['m1']
     sc = rec['sidecar']
     c = rec['case']
+    if c.get('sig') in ('int', 'exit') and not sc.get('completed'):
+        if 'point' in sc:
+            pt = tuple(sc['point'])
+            if pt[0] == 'write_split':
+                pt = ('write_pre',) + pt[1:]
+            k, eff = W.fault_k(pt, n1, m1)
+        else:
+            li = sc['line_info']
+            k, eff = (max(1, W.line_k(li, n1, m1)) if W.line_in_try(li) else 0), 0
+        return f"SAVE mode={c['mode']} n={n1} m={m1} kind=fault k={k} eff={eff} del=ok", k, True
     if sc.get('completed'):
         k = 9 + n1 + m1
         durable = True
@@ -233,7 +267,10 @@ def evaluate(recs, dry_of):
         rec['model'] = mo
         rec['real'] = real_obs(rec)
         model_safe = mo.endswith('safe=1')
+        soft = c.get('sig') in ('int', 'exit')
         mo_cmp = ' '.join(w for w in mo.split() if not w.startswith('safe='))
+        if soft:
+            mo_cmp = mo_cmp.replace('raised=1', 'raised=0')
         if rec['real'] != mo_cmp:
             disagreements.append(dict(case=c, k=rec['k'], real=rec['real'], model=mo_cmp, line=rec['model_line'],
                                       files=rec.get('files'), sidecar=rec['sidecar']))
@@ -241,6 +278,9 @@ def evaluate(recs, dry_of):
                    files=rec.get('files'))
         if 'WRONG' in rec['load']:
             violations.append(dict(what='after a kill during a save a later run_tasks returned a WRONG value (' + rec['load'] + ')',
+                                   replay=rep))
+        elif poisoned(rec) and soft:
+            violations.append(dict(what=f"a {'Ctrl-C (SIGINT -> KeyboardInterrupt)' if c['sig'] == 'int' else 'SystemExit'} landing mid-save (micro-step {rec['k']}) in the process executing the task left an entry that is reported cached and {'fails to load' if rec['load'] == 'fails' else 'loads ' + rec['load']}: {rec['real']}",
                                    replay=rep))
         elif poisoned(rec):
             if not model_safe:
@@ -286,6 +326,16 @@ def enumerate_cases(tier, dry_of):
                     c += 1
                     cases.append(dict(kind=kind, idx=idx, mode=mode, inj=['line', e], flush=0,
                                       sig='term' if c % 4 == 0 else 'kill'))
+                # soft kills: SIGINT / SystemExit at the storage-operation points and at executed lines
+                for p in pts:
+                    c += 1
+                    if tier == 'thorough' or idx == 0 or c % 3 == 0:
+                        cases.append(dict(kind=kind, idx=idx, mode=mode, inj=list(p), flush=0,
+                                          sig='int' if c % 2 == 0 else 'exit'))
+                for e in range(0, dry['lines'], 1 if tier == 'thorough' else (2 if idx == 0 else 5)):
+                    c += 1
+                    cases.append(dict(kind=kind, idx=idx, mode=mode, inj=['line', e], flush=0,
+                                      sig='int' if c % 2 == 0 else 'exit'))
                 # a kill after the save (the task completed): trigger that never fires
                 cases.append(dict(kind=kind, idx=idx, mode=mode, inj=['line', 10 ** 6], flush=0, sig='kill'))
     return cases
@@ -357,7 +407,8 @@ def run(ctx):
         by_kind={k: sum(1 for r in recs if r['case']['kind'] == k) for k in ('pickle', 'json')},
         by_point={k: sum(1 for r in recs if r['case']['inj'][0] == k)
                   for k in ('fh_enter', 'fh_exit', 'write_pre', 'write_split', 'write_post', 'close_pre', 'close_post', 'line')},
-        by_signal={k: sum(1 for r in recs if r['case']['sig'] == k) for k in ('kill', 'term')},
+        by_signal={k: sum(1 for r in recs if r['case']['sig'] == k) for k in ('kill', 'term', 'int', 'exit')},
+        soft_kills_poisoned=sum(1 for r in recs if r['case']['sig'] in ('int', 'exit') and poisoned(r)),
         buffer={'flushed_before_kill': sum(1 for r in recs if r['case']['flush']),
                 'dropped(native buffering)': sum(1 for r in recs if not r['case']['flush']),
                 'measured_not_durable': sum(1 for r in recs if not r['durable'])},
